@@ -129,6 +129,18 @@ CHECKS = {
         design="DESIGN.md 5 (C15)",
         technique="TLA+ spec + TLC exhaustive; spec->code replay of every enumerated state",
     ),
+    "C17": dict(
+        engine="tla-timeline",
+        text="Timeline.tla defines Lookup (nearest frame within tolerance, ties either) and InterpLookup (neighbours before / after within tolerance, "
+        "linear position, shortest-arc yaw, objects of one neighbour kept, ego pose interpolated) with exact rationals. TLC checks "
+        "nearest-within-tolerance, reproduction at a neighbour's timestamp and that the interpolating lookup answers whenever the plain one does over "
+        "sampled frame lists x all query times x tolerances; every state is replayed through get_now_frame, get_interpolated_now_frame and "
+        "manager.get_ground_truth_now_frame with frames stored in map and in base_link (frame identity, stamped time, object and ego poses in "
+        "global coordinates); random microsecond timelines with float poses are validated as traces in fixed point.",
+        note="lattice poses (integer positions, 15-degree yaw grid, quarter-turn ego yaw); antipodal yaw pairs excluded; interpolated poses compared globally",
+        design="DESIGN.md 5 (C17)",
+        technique="TLA+ spec + TLC; spec->code replay of every state; code->spec trace validation",
+    ),
     "C18": dict(
         engine="tla-transforms",
         text="Transforms.tla models rigid transforms between named frames on the exact group Z^3 x| O_h+ and the transform registry as a state "
